@@ -162,6 +162,9 @@ def suite_create(ctx):
             ("radius 10 % too large", dict(area_extent=(x0, y0, x1, y1), radius=((x1 - x0) / 2 * 1.1, (y1 - y0) / 2), resolution=(px, py))),
             ("shape contradicts radius/resolution", dict(center=(cx, cy), radius=((x1 - x0) / 2, (y1 - y0) / 2), resolution=(px, py), shape=(h + 1, w))),
             ("upper-left corner off", dict(area_extent=(x0, y0, x1, y1), upper_left_extent=(x0 + 3 * px, y1), resolution=(px, py))),
+            # no extent given: centre, upper-left corner and radius have to be combined with each other
+            ("radius contradicts centre / upper-left corner", dict(center=(cx, cy), upper_left_extent=(x0, y1), radius=((x1 - x0) / 2 * 1.25, (y1 - y0) / 2), resolution=(px, py))),
+            ("upper-left corner contradicts centre / radius", dict(center=(cx, cy), upper_left_extent=(x0 - 2 * px, y1), radius=((x1 - x0) / 2, (y1 - y0) / 2), shape=(h, w))),
         ):
             inp = {"crs": cname, "grid": {"extent": [x0, y0, x1, y1], "shape": [h, w]}, "contradiction": bad_name}
             raised = False
@@ -261,6 +264,10 @@ def suite_yaml(ctx):
             x0, y0 = r.uniform(-1e6, 1e6) / unit_m, r.uniform(-1e6, 1e6) / unit_m
             specs.append((f"{cname}_{len(specs)}", proj, w, h, (x0, y0, x0 + w * px, y0 + h * px)))
     specs.append(("geo_0", "EPSG:4326", 6, 4, (-10.0, 40.0, 5.0, 50.0)))
+    # the same kind of grid with the extent held in numpy integer containers (as read from file attributes)
+    specs.append(("int64_array", CRSS[0][1] if not (isinstance(CRSS[0][1], dict) and "EPSG" in CRSS[0][1]) else "EPSG:3035", 8, 5, np.array([3000000, 2000000, 3008000, 2005000], dtype=np.int64)))
+    specs.append(("int32_scalars", "EPSG:4326", 6, 4, tuple(np.int32(v) for v in (-12, 40, 6, 52))))
+    specs.append(("mixed_scalars", "EPSG:4326", 6, 4, (np.int64(-12), 40.0, np.float32(6.0), 52)))
     specs.append(("geo_pm", {"proj": "longlat", "datum": "WGS84", "pm": 180}, 6, 4, (-10.0, 40.0, 5.0, 50.0)))
     areas = []
     with warnings.catch_warnings():
@@ -291,11 +298,23 @@ def suite_yaml(ctx):
 
     with warnings.catch_warnings():
         warnings.simplefilter("ignore")
+        def loads(fn, how, a=None):
+            try:
+                return fn()
+            except Exception as e:  # noqa: a dump that cannot be read back is a failed round trip, with this area as the input
+                ctx.fail("AreaDefinition.dump / load_area", f"the dump cannot be loaded back: {type(e).__name__}: {str(e)[:200]}",
+                         {"via": how, "area_id": None if a is None else a.area_id, "extent_types": None if a is None else [type(v).__name__ for v in np.ravel(a.area_extent)],
+                          "extent": None if a is None else [float(v) for v in a.area_extent]}, tags={"via": how, "cause": "load-raises"}, size=5)
+                return None
         for a in areas:
-            compare(a, load_area_from_string(a.dump(), a.area_id), "load_area_from_string(one)")
+            back = loads(lambda: load_area_from_string(a.dump(), a.area_id), "load_area_from_string(one)", a)
+            if back is not None:
+                compare(a, back, "load_area_from_string(one)")
         many = "".join(a.dump() for a in areas)
-        loaded = load_area_from_string(many)
-        if len(loaded) != len(areas):
+        loaded = loads(lambda: load_area_from_string(many), "load_area_from_string(many)")
+        if loaded is None:
+            pass
+        elif len(loaded) != len(areas):
             ctx.fail("area_config.load_area_from_string", "number of areas loaded from a multi-area string differs", {"n": len(areas), "got": len(loaded)}, size=5)
         else:
             for a, b in zip(areas, loaded):
@@ -306,11 +325,14 @@ def suite_yaml(ctx):
             for a in areas:
                 a.dump(path)          # appends
             for a in areas[:: max(1, len(areas) // 5)]:
-                compare(a, load_area(path, a.area_id), "load_area(file, id)")
+                back = loads(lambda: load_area(path, a.area_id), "load_area(file, id)", a)
+                if back is not None:
+                    compare(a, back, "load_area(file, id)")
             sel = [areas[0].area_id, areas[-1].area_id]
-            two = load_area(path, *sel)
-            compare(areas[0], two[0], "load_area(file, two ids)")
-            compare(areas[-1], two[1], "load_area(file, two ids)")
+            two = loads(lambda: load_area(path, *sel), "load_area(file, two ids)")
+            if two is not None:
+                compare(areas[0], two[0], "load_area(file, two ids)")
+                compare(areas[-1], two[1], "load_area(file, two ids)")
         finally:
             import shutil
             shutil.rmtree(tmp, ignore_errors=True)
